@@ -106,6 +106,13 @@ def run(ctx):
             # two OMEN levels listed with exactly the same probability
             spec = adjacent_ulp_spec(rng)
             spec['omen_prob'] = [['1', '0.27'], ['2', '0.27']]
+        if i == 5:
+            # whatever the seed: one Markov level (target 2) that holds two lengths, both at length level 2 - a session resumed inside the
+            # first length has to step on to the second one
+            spec = C12.small_ruleset(rng, markov_pos=0)
+            spec['omen'] = {'ngram': 2, 'alphabet': ['a', 'b'], 'ip': [[0, 'a'], [0, 'b']], 'ep': [[0, 'a'], [0, 'b']],
+                            'cp': [[0, 'aa'], [0, 'ab'], [0, 'ba'], [0, 'bb']], 'ln': [10, 0, 2, 2], 'keyspace': [[l, 1] for l in range(0, 19)]}
+            spec['omen_prob'] = [['2', '0.5'], ['0', '0.3']]
         d = common.write_ruleset(os.path.join(root, f"c15_{i % 5}"), spec)
         pcfg = common.load_grammar(d)
         units = ss.units_of(pcfg)
